@@ -146,6 +146,10 @@ def gen_case(rng, idx):
             el["idle"] = True           # waits on an awaitable nothing else references
         elif fl is not None and rng.random() < 0.3:
             el["churn"] = True          # allocates cyclic garbage: the garbage collector runs while the daemon is up
+        if fl is not None and rng.random() < 0.15:
+            # a constructor that outlasts several polls of the accept loop (asyncio services are started by
+            # the loop that is busy constructing, trio / thread services by another thread: SLOW_FINDING)
+            el["slow"] = rng.choice([0.15, 0.3])
         elems.append(el)
     fault = rng.choice([None, None, None, None, "bad_yaml", "unknown_tag", "unknown_section", "missing_pipeline",
                         "ctor_typeerror", "unknown_ext", "missing_file", "py_raises", "service_fail", "service_fail"])
@@ -178,6 +182,13 @@ def corpus():
                      {"cls": "DecoAsyncio", "ident": 2, "flavour": "asyncio", "form": "tag", "churn": True},
                      {"cls": "DecoTrio", "ident": 3, "flavour": "trio", "form": "type", "idle": True},
                      {"cls": "PoolThreading", "ident": 4, "flavour": "threading", "form": "tag", "churn": True}]}
+    yield {"idx": 9003, "kind": "yaml", "fault": None, "logging": False, "sigint_after": 0.1,
+           "elems": [{"cls": "CtrlAsyncio", "ident": 1, "flavour": "asyncio", "form": "tag", "slow": 0.3},
+                     {"cls": "DecoAsyncio", "ident": 2, "flavour": "asyncio", "form": "type", "slow": 0.15},
+                     {"cls": "PoolTrio", "ident": 3, "flavour": "trio", "form": "tag"}]}
+    yield {"idx": 9004, "kind": "yaml", "fault": None, "logging": False, "sigint_after": 0.1,
+           "elems": [{"cls": "CtrlTrio", "ident": 1, "flavour": "trio", "form": "tag", "slow": 0.3},
+                     {"cls": "PoolThreading", "ident": 2, "flavour": "threading", "form": "tag", "slow": 0.3}]}
     yield {"idx": 9001, "kind": "py", "fault": None, "logging": False, "sigint_after": 0.0,
            "elems": [{"cls": "CtrlAsyncio", "ident": 1, "flavour": "asyncio", "form": "tag"},
                      {"cls": "PoolThreading", "ident": 2, "flavour": "threading", "form": "tag"}]}
@@ -215,6 +226,8 @@ def write_config(case, d):
             for flag in ("idle", "churn"):
                 if e.get(flag):
                     kw += ", %s=True" % flag
+            if e.get("slow"):
+                kw += ", slow=%r" % e["slow"]
             if "fail_after" in e:
                 kw += ", fail_after=%r, fail_kind=%r" % (e["fail_after"], e["fail_kind"])
             if fault == "ctor_typeerror" and e is elems[0]:
@@ -239,6 +252,8 @@ def write_config(case, d):
                 for flag in ("idle", "churn"):
                     if e.get(flag):
                         args[flag] = True
+                if e.get("slow"):
+                    args["slow"] = e["slow"]
                 if "fail_after" in e:
                     args["fail_after"] = e["fail_after"]
                     args["fail_kind"] = e["fail_kind"]
@@ -326,6 +341,7 @@ def run_impl(case):
     evs = read_events(evp)
     err = err.decode("utf-8", "replace")
     res = {"exit": p.returncode, "timed_out": timed_out, "ready": ready, "events": evs,
+           "half_built": "object has no attribute 'ident'" in err or "object has no attribute 'idle'" in err,
            "stderr_tail": err[-600:], "error_logged": ("Traceback" in err or "runner terminated" in err or "Error" in err)}
     shutil.rmtree(d, ignore_errors=True)
     return res
@@ -334,8 +350,21 @@ def run_impl(case):
 # ------------------------------------------------------------------------------------------
 # oracle: the property on the raw observation
 # ------------------------------------------------------------------------------------------
+SLOW_FINDING = "C13-service-started-before-constructed"
+
+
+def slow_finding(case, res):
+    """the listed finding: a trio / thread service with a slow constructor was started half-built"""
+    return bool(res.get("half_built")) and any(e.get("slow") and e["flavour"] in ("trio", "threading") for e in case["elems"])
+
+
 def oracle(case, res):
     v = []
+    slow_other = [e["ident"] for e in case["elems"] if e.get("slow") and e["flavour"] in ("trio", "threading")]
+    if case["fault"] is None and slow_finding(case, res):
+        return [(SLOW_FINDING, "half-built: trio / thread service %s was started by the accept loop while its constructor "
+                 "was still running; its run failed on the missing attributes and the daemon exited with status %s"
+                 % (slow_other, res["exit"]))]
     evs = [e["ev"] for e in res["events"]]
     services = {e["ident"]: e for e in case["elems"] if e["flavour"]}
     if case["fault"] is None:
@@ -393,6 +422,17 @@ def sid(ident):
 
 def to_events(case, res):
     evs = sorted(res["events"], key=lambda e: e["t"])     # absolute monotonic times of one machine
+    # The loader's cancellation is logged by a wrapper *around* main._load_services, i.e. after the `with
+    # load(path)` block has been left and the configuration released: objects finalised between a termination
+    # trigger and that log record were released by the cancelled loader, so the record is moved before them.
+    kinds = [r["ev"] for r in evs]
+    lc = next((i for i, e in enumerate(kinds) if e[0] == "LoaderCancelled"), None)
+    trig = next((i for i, e in enumerate(kinds) if e[0] == "Sigint" or (e[0] == "Finish" and e[2] != "ret_none")
+                 or (e[0] == "LoaderFinish" and e[1] == "raise")), None)
+    if lc is not None and trig is not None:
+        fin = next((i for i, e in enumerate(kinds) if i > trig and e[0] == "Finalized"), None)
+        if fin is not None and fin < lc:
+            evs.insert(fin, evs.pop(lc))
     out = []
     started = set()
     fail_ids = []
@@ -522,7 +562,13 @@ def main(tier=None, seed=None, replay=None):
 
     viols = judge(cases, results)
     reported = set()
+    known_cases = {i for i, (c, r) in enumerate(zip(cases, results)) if slow_finding(c, r)}
+    if known_cases:
+        chk.known_finding(SLOW_FINDING, "half-built service started")
     for (i, v) in viols:
+        if v[0][0] == SLOW_FINDING and chk.known_finding(SLOW_FINDING, v[0][1]):
+            known_cases.add(i)
+            continue
         # timing robustness: only a reproduced complaint counts
         r2 = run_impl(cases[i])
         v2 = oracle(cases[i], r2)
@@ -546,7 +592,7 @@ def main(tier=None, seed=None, replay=None):
             bad = []
             broken.append({"kind": "correspondence", "detail": str(e)[-800:]})
         for i in bad:
-            if i in [x for (x, _v) in viols]:
+            if i in [x for (x, _v) in viols] or i in known_cases:
                 continue
             r2 = run_impl(cases[i])
             t2 = coq_case(cases[i], r2, True)
@@ -561,6 +607,7 @@ def main(tier=None, seed=None, replay=None):
         broken.append({"kind": "translator", "detail": "structure fact loader_holds_config is false: %s" % facts})
 
     if broken and not chk.violations:
+        chk.note("broken: %s" % json.dumps(broken)[:1500])
         chk.note("a proof obligation / the correspondence broke; searching for a failing configuration")
         more = gen_cases(chk.rng("search"), max(2 * n, 100))
         # prefer the shapes in which an unreferenced configuration shows: many services, no fault
@@ -568,6 +615,8 @@ def main(tier=None, seed=None, replay=None):
         res2 = run_cases(more)
         found = False
         for (i, v) in judge(more, res2):
+            if v[0][0] == SLOW_FINDING and chk.known_finding(SLOW_FINDING, v[0][1]):
+                continue
             r3 = run_impl(more[i])
             v3 = oracle(more[i], r3)
             if {m.split(":")[0] for (_f, m) in v} & {m.split(":")[0] for (_f, m) in v3}:
